@@ -240,6 +240,10 @@ class _ExtraAttrs(EvalExtras):
                 "table. Was parsing called from the architecture on top?"
             )
 
+        # Inherit the architecture-level extra attributes on a copy: writing them into the
+        # object that is being evaluated would leave this evaluation's values in the
+        # caller's (unevaluated) component, where a later evaluation finds them "already set".
+        self = self.model_copy()
         for k, v in orig_symbol_table[
             "arch_extra_attributes_for_all_component_models"
         ].items():
